@@ -25,6 +25,7 @@ RULE = (
     "found in mokapot.constants that is not one of the six known chunk constants: a refit under {1,2,3,7,n-1} must predict as the base model. "
     "Non-trivial = >= 2 iterations and both labels among the training rows and at least one iteration in which "
     "the positive set changed; distinct = case parameters."
+    " predict() on the training PSMs must reproduce the estimator's own scores after its last fit, directly after training and after the trained model was refined by a second fit() on the same PSMs with the feature columns in another order."
 )
 ASSUMPTIONS = [
     "accepted targets are computed with the real tdc on the recorded outputs (C01)",
@@ -244,6 +245,47 @@ def run_case(case):
                     res.violate("crash", c3.sig + "/predict_loaded", msg=c3.info["msg"], **extra)
                 elif not np.array_equal(np.asarray(c3.value, dtype=float), p0):
                     res.violate("loaded_model_predicts_differently", "", **extra)
+    # the scores the estimator itself produced for the training PSMs after its last fit are what predict() must return
+    # for the same PSMs - directly after training, and again after the trained model has been refined by a second
+    # fit() on the same PSMs with the feature columns in another order (documented use of a pre-trained model)
+    rid_pos = {int(r): i for i, r in enumerate(tab["df"]["rid"].values)}
+
+    def last_training_scores(log):
+        ev = [e for e in log if e["ev"] == "score"]
+        return dict(zip((int(r) for r in ev[-1]["rids"]), ev[-1]["out"])) if ev else {}
+
+    def check_against(want, pred, what):
+        if not want:
+            return
+        idx = np.array([rid_pos[r] for r in want])
+        w = np.array([want[r] for r in want], dtype=float)
+        res.count("predictions_compared_with_training_time_scores")
+        if not np.allclose(pred[idx], w, rtol=1e-12, atol=1e-12):
+            res.violate("predict_differs_from_training_time_scores", what, rows=int((~np.isclose(pred[idx], w, rtol=1e-12, atol=1e-12)).sum()),
+                        max_abs_diff=float(np.abs(pred[idx] - w).max()), **extra)
+
+    tag = getattr(base_model.estimator, "tag", None)
+    if tag:
+        log1 = recorder.snapshot(tag)
+        check_against(last_training_scores(log1), p0, "first_fit")
+        # (the recording estimator finds the row ids by column position: the id column keeps its place, the others move)
+        feats0 = list(tab["features"])
+        others = [i for i, f in enumerate(feats0) if f != "rid"]
+        moved = others[1:] + others[:1]
+        order2 = list(range(len(feats0)))
+        for src, dst in zip(others, moved):
+            order2[src] = dst
+        c = core.Call(base_model.fit, make_dataset(tab, None, order2))
+        res.count("refits_with_permuted_columns")
+        if c.ok:
+            log2 = recorder.snapshot(tag)[len(log1):]
+            cp = core.Call(base_model.predict, ds0)
+            if not cp.ok:
+                res.violate("crash", cp.sig + "/predict_after_refit", msg=cp.info["msg"], **extra)
+            else:
+                check_against(last_training_scores(log2), np.asarray(cp.value, dtype=float), "after_refit_with_permuted_columns")
+        elif not c.explicit:
+            res.violate("crash", c.sig + "/refit", msg=c.info["msg"], **extra)
     res["nontrivial"] = bool(len(base_pos) >= 2 and base_changed)
     res["sample"] = dict(extra, positives_per_iteration=[len(s) for s in base_pos], variants=sorted(ok))
     return res
